@@ -172,6 +172,22 @@ def gen_params(rng, tkey):
         return ps
     if tkey == "text":
         return [["rows", rng.choice(["3", "10"])]] if rng.random() < 0.3 else []
+    if tkey == "audit":
+        ps = []
+        if rng.random() < 0.5:
+            ps.append(["track-changes", rng.choice(["true", "false", "TRUE"])])
+        if rng.random() < 0.3:
+            ps.append(["track-changes-reasons", "on-form-edit"])
+        if rng.random() < 0.4:
+            ps.append(["identify-user", rng.choice(["true", "false"])])
+        if rng.random() < 0.5:
+            lo = rng.choice([0, 5, 10])
+            loc = [["location-priority", rng.choice(["no-power", "low-power", "balanced", "high-accuracy", "Balanced"])],
+                   ["location-min-interval", str(lo)], ["location-max-age", str(lo + rng.choice([0, 1, 50]))]]
+            rng.shuffle(loc)
+            ps += loc
+        rng.shuffle(ps)
+        return ps
     return []
 
 
@@ -199,6 +215,9 @@ def own_param_logic(tkey, ps):
         return [["odk:quality", d["quality"]]]
     if tkey in ("geopoint", "geoshape", "geotrace") and "allow-mock-accuracy" in d:
         return [["odk:allow-mock-accuracy", d["allow-mock-accuracy"]]]
+    if tkey == "audit":
+        return [["odk:" + k, d[k]] for k in ("track-changes", "track-changes-reasons", "identify-user", "location-max-age",
+                                             "location-min-interval", "location-priority") if k in d]
     return []
 
 
@@ -234,6 +253,7 @@ class ARow:
         self.block = False  # part of a directed block (never disabled)
         self.rownum = None
         self.rep = False
+        self.audit = False
 
 
 def gen_value(rng, attr, tops):
@@ -340,6 +360,13 @@ def gen_form(rng, big=False, directed=None):
                 ar.tcell, ar.tkey = t, ("photo" if t == "image" else t)
                 ar.params = gen_params(rng, t)
             rows.append(ar)
+    if directed == "params" and rng.random() < 0.5 or rng.random() < 0.04:
+        # an audit row (anywhere in the sheet, even inside a group) goes to the meta block
+        ar = ARow("q", "audit", "audit", "audit")
+        ar.audit, ar.block = True, True
+        ar.noname = rng.random() < 0.5
+        ar.params = gen_params(rng, "audit")
+        rows.insert(rng.randint(0, len(rows)), ar) if not any(x.block for x in rows) else rows.append(ar)
     while stack:
         if rows[-1].kind == "begin":
             rows.append(ARow("q", fresh("q"), "text", "text"))
@@ -353,7 +380,9 @@ def gen_form(rng, big=False, directed=None):
             st.pop()
             continue
         ar.path = "/data/" + "/".join([*st, ar.name])
-        if ar.kind == "begin":
+        if ar.audit:
+            ar.path = "/data/meta/audit"
+        elif ar.kind == "begin":
             st.append(ar.name)
         elif not st:
             tops.append(ar.name)
@@ -391,7 +420,7 @@ def gen_form(rng, big=False, directed=None):
                 ar.logic.append((a, val))
                 if a not in used_attrs:
                     used_attrs.append(a)
-        if ar.kind == "q" and vis_tops and rng.random() < 0.08 and ar.tkey not in ("start", "end", "today") and ar.in_loop is None:
+        if ar.kind == "q" and vis_tops and rng.random() < 0.08 and ar.tkey not in ("start", "end", "today") and ar.in_loop is None and not ar.audit:
             t = rng.choice(vis_tops)
             if t != ar.name:
                 ar.trigger = "${" + t + "}"
@@ -432,7 +461,8 @@ def gen_form(rng, big=False, directed=None):
         ar.rownum = idx + 2
         cells = {tcol: ar.tcell}
         if ar.kind != "end":
-            cells[ncol] = ar.name
+            if not (ar.audit and getattr(ar, "noname", False)):
+                cells[ncol] = ar.name
             cells[lcol] = "L " + ar.name
         for a, val in ar.logic:
             if isinstance(val, dict):
@@ -728,7 +758,7 @@ OWN_TYPES = {
     "username": _pre("property", "username"), "phonenumber": _pre("property", "phonenumber"),
     "email": _pre("property", "email"), "simserial": _pre("property", "simserial"),
     "subscriberid": _pre("property", "subscriberid"), "start-geopoint": {"type": "geopoint"},
-    "background-audio": {"type": "binary"},
+    "background-audio": {"type": "binary"}, "audit": {"type": "binary"},
 }
 
 OWN_CONVERTIBLE = {"readonly", "required", "relevant", "constraint", "calculate"}
